@@ -262,12 +262,16 @@ func LoadReplay(path string) *ReplayFile {
 }
 
 func init() {
-	bfsCheck("C01", "balance", func() Driver { return NewBalDriver("C01") }, 4, 7, 120, 1000, nil)
+	multiBfsCheck("C01", []part{
+		{"balance", func() Driver { return NewBalDriver("C01") }, 4, 7, 120, 1000},
+		{"balance-emptied-accounts", func() Driver { return NewBalDriver("C01e") }, 6, 9, 40, 300},
+	}, nil)
 	bfsCheck("C02", "balance-auth", func() Driver { return NewBalDriver("C02") }, 4, 6, 120, 1000, nil)
 	bfsCheck("C04", "container-registry", func() Driver { return NewCntDriver() }, 5, 8, 120, 1000, nil)
 	multiBfsCheck("C06", []part{
 		{"netmap-tick", func() Driver { return NewTickDriver("C06") }, 5, 7, 120, 1000},
 		{"netmap-tick-bare", func() Driver { return NewTickDriver("C06bare") }, 4, 6, 40, 300},
+		{"netmap-tick-long-history", func() Driver { return NewTickDriver("C06hist") }, 4, 5, 40, 200},
 	}, nil)
 	bfsCheck("C07", "netmap-candidates", func() Driver { return NewTickDriver("C07") }, 12, 12, 120, 1000, nil)
 	bfsCheck("C10", "nns-lifecycle", func() Driver { return NewNNSDriver("C10") }, 5, 7, 120, 1000, nil)
